@@ -791,7 +791,11 @@ def lookup(run, model, rule="C06.lookup"):
     run.check(unrestricted is None, rule, fi.qual + ":parameters-only", "only the condition's own parameters are looked up among the arguments of the call", "all arguments of the call are offered as bindings for the names of the condition: a closure variable or global of the condition that is named like another argument of the function is shown (and sub-expressions are re-computed) with the argument's value, not with the value the condition saw", fi.loc(unrestricted) if unrestricted is not None else fi.loc(), None, first_line(unrestricted.stmt) if unrestricted is not None else None)
     # a parameter of the condition that the call does not supply takes its *default*: the name must not fall through
     # to a closure variable or global of the same name (``lambda x, limit=10: x < limit`` next to a global ``limit``)
-    gg_ = GuardGraph(flow)
+    from ..decomp import loops_view as _loops_view
+
+    fi_v = _loops_view(model, fi)  # ``table.update({name: p.default for ... if ...})`` read as the loop it stands for
+    flow_v = get_flow(model, fi_v)
+    gg_ = GuardGraph(flow_v)
     # the table of arguments, by what it is bound to: the comprehension over ``resolved_kwargs.items()``
     first_tables = set()
     for st in ast.walk(fi.node):
@@ -802,9 +806,9 @@ def lookup(run, model, rule="C06.lookup"):
                     if isinstance(tg, ast.Name):
                         first_tables.add(tg.id)
     dflt = None
-    for n in flow.cfg.nodes:
+    for n in flow_v.cfg.nodes:
         if n.kind == "stmt" and isinstance(n.ast, ast.Assign) and len(n.ast.targets) == 1 and isinstance(n.ast.targets[0], ast.Subscript) and isinstance(n.ast.targets[0].value, ast.Name) and n.ast.targets[0].value.id in first_tables and isinstance(n.ast.value, ast.Attribute) and n.ast.value.attr == "default":
-            vt = strip_sites(flow.term(n.ast.value.value, n))
+            vt = strip_sites(flow_v.term(n.ast.value.value, n))
             from_params = any(s_[0] == "attr" and s_[2] == "parameters" and s_[1][0] == "call" and s_[1][1] == ("attr", ("module", "inspect"), "signature") for s_ in subterms(vt))
             if from_params:
                 # ... only where the call has not supplied the value (the supplied value wins)
@@ -813,7 +817,7 @@ def lookup(run, model, rule="C06.lookup"):
                 for (nid, k), (kn, atoms) in gg_.edge_facts.items():
                     for at, pol in kn:
                         ats = strip_sites(at)
-                        if ats[0] == "op" and ats[1] in ("cmp:In", "cmp:NotIn") and (pol == (ats[1] == "cmp:NotIn")) and gg_.necessary([flow.cfg.entry], [n.id], (at, pol)):
+                        if ats[0] == "op" and ats[1] in ("cmp:In", "cmp:NotIn") and (pol == (ats[1] == "cmp:NotIn")) and gg_.necessary([flow_v.cfg.entry], [n.id], (at, pol)):
                             cont = ats[2][1]
                             if cont == ("param", "resolved_kwargs") or "comp" in show(cont) or tname in show(cont) or cont[0] in ("comp", "display"):
                                 guarded = True
@@ -1115,7 +1119,7 @@ def formatted_value(run, model, rule="C06.fstring-format"):
                     l = ts[2][0]
                     tl = table_lookup(l, c)
                     if tl is not None:
-                        isnone = tl[0] == "miss"
+                        isnone = tl[0] == "miss" or tl[1] == ("const", "None")
                         return isnone if ts[1] == "cmp:Is" else not isnone
                     if l == ("attr", NODE, "format_spec"):
                         isnone = not has_spec
@@ -1128,6 +1132,11 @@ def formatted_value(run, model, rule="C06.fstring-format"):
                     return isnone if ts[1] == "cmp:Is" else not isnone
                 if ts[0] == "op" and ts[1] == "cmp:Is" and "PLACEHOLDER" in show(ts[2][1]):
                     return False
+                if ts[0] == "op" and ts[1] in ("cmp:In", "cmp:NotIn") and ts[2][0] == ("attr", NODE, "conversion"):
+                    # membership of the conversion code in a module-level literal table
+                    tl = table_lookup(("idx", ts[2][1], ts[2][0]), c)
+                    if tl is not None:
+                        return (tl[0] == "hit") == (ts[1] == "cmp:In")
                 if ts[0] == "call" and ts[1] == ("builtin", "isinstance"):
                     return True
                 if ts[0] == "op" and ts[1] in ("cmp:Eq", "cmp:NotEq") and ts[2][0] == ("attr", NODE, "conversion"):
@@ -1677,7 +1686,7 @@ def comprehension_env(run, model, rule="C06.comprehension-env"):
                 ct = flow.term(call.func, n)
                 # compiled code is fetched from the namespace it was exec'ed into: a subscript look-up
                 alts_ = ct[1] if ct[0] == "phi" else (ct,)
-                if _dynamic_callee(ct) and all(a_[0] == "idx" for a_ in alts_):
+                if _dynamic_callee(ct) and all(a_[0] == "idx" and strip_sites(a_[1])[0] != "global" for a_ in alts_):
                     sites.append((n, call))
         if not sites:
             continue
